@@ -215,7 +215,7 @@ class C10(EngineProp):
     level_note = 'Trusted: as C07. A channel is terminated when both directions are closed (the library\'s half-close semantics, pinned by the suite).'
     design_ref = '§5 C10'
     rule = ('as C07; at quiescence the stream table and fragment cache of the endpoint are read and every interaction that terminated (by the definition in DESIGN §5 C10) must be '
-            'absent; terminated peer-opened ids are then re-used by a probe request; up to two request-responses / streams still being served are then cancelled by the peer and their ids re-used right behind the CANCEL, in the same read (the interaction ends when the CANCEL is processed, not when a later callback runs); plus two real endpoints on a driven link (pair mode)')
+            'absent; terminated peer-opened ids are then re-used by a probe request; up to two request-responses / streams still being served are then cancelled by the peer and their ids re-used right behind the CANCEL, in the same read (the interaction ends when the CANCEL is processed, not when a later callback runs); plus two real endpoints on a driven link (pair mode); plus a reconnecting client (the scenarios of C01): once the new connection stands and before any traffic on it, the stream table and the reassembly cache must be empty')
     assumptions = ['quiescence = the deterministic loop is idle']
 
     def cases(self, rng, tier):
@@ -224,33 +224,48 @@ class C10(EngineProp):
             plans = [{'kind': rng.choice(['rr', 'stream', 'stream', 'channel']), 'size': rng.choice([0, 30, 200, 400]), 'n0': rng.choice([1, 2, 2, 2 ** 31 - 1]),
                       'cancel': rng.choice([None, 0, 0, 1, 2, 3, 5])} for _ in range(rng.randint(1, 4))]
             out.append({'mode': 'pair', 'role': 'both', 'profile': 'pair', 'seed': rng.getrandbits(32), 'tcp': rng.random() < 0.4, 'frag': rng.choice([None, 64, 64]), 'plans': plans})
+        # a reconnecting client: once the new connection stands, nothing of the old one's interactions (all ended: answered, cancelled or
+        # failed with the connection) may be left in the stream table or the reassembly cache - the scenarios of C01, read at that moment
+        from harness.props import c01
+        k = 0
+        for c in c01.PROP.cases(rng, 'quick' if tier == 'quick' else 'thorough'):
+            if c.get('kind') == 'reconnect':
+                out.append({'mode': 'reconnect', 'role': 'client', 'profile': 'reconnect', 'c01': c})
+                k += 1
+                if k >= (60 if tier == 'quick' else 1500):
+                    break
         return out
 
     def run_impl(self, case):
         if case.get('mode') == 'pair':
             from harness import detloop
             return detloop.run(pair_scenario, case)
+        if case.get('mode') == 'reconnect':
+            from harness.props import c01
+            return c01.PROP.run_impl(case['c01'])
         return super().run_impl(case)
 
     def model_lines(self, case, obs):
-        return [] if case.get('mode') == 'pair' else super().model_lines(case, obs)
+        return [] if case.get('mode') in ('pair', 'reconnect') else super().model_lines(case, obs)
 
     def compare(self, case, obs, answers):
-        return None if case.get('mode') == 'pair' else super().compare(case, obs, answers)
+        return None if case.get('mode') in ('pair', 'reconnect') else super().compare(case, obs, answers)
 
     def nontrivial(self, case, obs):
-        if case.get('mode') == 'pair':
+        if case.get('mode') in ('pair', 'reconnect'):
             import json
             return json.dumps(case, sort_keys=True)
         return super().nontrivial(case, obs)
 
     def stats(self, case, obs):
-        if case.get('mode') == 'pair':
-            yield 'mode=pair'
+        if case.get('mode') in ('pair', 'reconnect'):
+            yield 'mode=' + case['mode']
             return
         yield from super().stats(case, obs)
 
     def shrink_candidates(self, case):
+        if case.get('mode') == 'reconnect':
+            return
         if case.get('mode') == 'pair':
             pl = case['plans']
             for i in range(len(pl)):
@@ -260,7 +275,7 @@ class C10(EngineProp):
         yield from super().shrink_candidates(case)
 
     def explicit(self, case, obs):
-        if case.get('mode') == 'pair':
+        if case.get('mode') in ('pair', 'reconnect'):
             return case
         return super().explicit(case, obs)
 
@@ -294,6 +309,13 @@ class C10(EngineProp):
 
     def oracle(self, case, obs):
         fails = []
+        if case.get('mode') == 'reconnect':
+            for i, (cache, table) in enumerate(obs.get('leftovers', [])):
+                if cache:
+                    fails.append({'signature': 'partial-frame-survives-reconnect', 'what': 'after reconnect %d, before any traffic on the new connection, the client holds partially reassembled frames for streams %s' % (i + 1, cache)})
+                if table:
+                    fails.append({'signature': 'stream-survives-reconnect', 'what': 'after reconnect %d, before any traffic on the new connection, the client has streams %s registered' % (i + 1, table)})
+            return fails
         if case.get('mode') == 'pair':
             if obs['unfinished'] or obs['stuck_publishers'] and not (obs['tables'][0] or obs['tables'][1]):
                 return fails
